@@ -267,7 +267,7 @@ Qed.
 
 Lemma inv_link c o :
   Inv None c -> col o = White -> live o = true ->
-  (forall t, ~ In (Some t) (strong o)) -> (forall t, ~ In (Some t) (weak o)) ->
+  (forall t, In (Some t) (strong o) -> ok_strong c t) -> (forall t, In (Some t) (weak o) -> ok_weak c t) ->
   (ntr o = false -> strong o = [] /\ weak o = []) ->
   Inv None (fst (link c o)) /\ ok_strong (fst (link c o)) (snd (link c o)).
 Proof.
@@ -341,7 +341,7 @@ Proof.
       * inversion G; subst; auto.
       * destruct Hin as [E|Hin]; [exfalso; unfold n in *; congruence|]. eapply (i_pre_white _ _ I); eauto.
     + intros q oq G L NC. rewrite (get_link_n c o _ n eq_refl) in G. destruct (Nat.eqb_spec q n); subst.
-      * inversion G; subst. split; intros t Ht; [destruct (HSo _ Ht)|destruct (HWo _ Ht)].
+      * inversion G; subst. split; intros t Ht; [apply OKS; apply (HSo _ Ht)|apply OKW; apply (HWo _ Ht)].
       * rewrite CONd in NC. destruct (i_obj _ _ I q oq G L NC) as [A B]. split; auto.
     + destruct (i_root _ _ I) as [A B]. split; cbn; auto.
     + destruct (i_regs _ _ I) as [A B]. split; cbn; auto.
